@@ -727,7 +727,9 @@ fn valid_on(args: Vec<Value>, not_before: u64, not_after: u64) -> Option<Value> 
     let timestamp: i64 = args.next()?.try_into().ok()?;
     let timestamp: u64 = timestamp.try_into().ok()?;
 
-    Some(Value::Boolean(
+    // Declared as returning an integer (as in libyara): return 0 or 1, not a boolean, otherwise
+    // comparisons such as `valid_on(ts) == 1` are evaluated on mismatched kinds and never hold.
+    Some(Value::Integer(i64::from(
         timestamp >= not_before && timestamp <= not_after,
-    ))
+    )))
 }
